@@ -104,6 +104,7 @@ type Contract struct {
 	Nullable    []string // pointer-typed cells that may be nil at entry
 	GhostParams []string
 	Lets        []GhostStmt // entry parametrisation: lvalue = expr (substituted into the entry state)
+	Modulo      []GhostStmt // hypotheses "monomial = polynomial" used as rewrite rules by eqmod (ideal membership)
 }
 
 var reEns = regexp.MustCompile(`^ensures(?:\[([^\]]+)\])?\s+(.*)$`)
@@ -428,6 +429,12 @@ func ParseContracts(file string) ([]*Contract, error) {
 				return nil, fail(err)
 			}
 			cur.Lets = append(cur.Lets, g)
+		case "modulo":
+			g, err := parseGhost(rest)
+			if err != nil {
+				return nil, fail(err)
+			}
+			cur.Modulo = append(cur.Modulo, g)
 		case "ghost-final":
 			g, err := parseGhost(rest)
 			if err != nil {
